@@ -174,8 +174,8 @@ fn op_gen_project(req: &Value) -> Value {
     let out = req["out"].as_str().unwrap_or("").to_string();
     let entry_rel = req["entry"].as_str().unwrap_or("main.incn").to_string();
     let keep = req.get("keep").and_then(|x| x.as_bool()).unwrap_or(false);
-    if !dir.is_absolute() || !Path::new(&out).is_absolute() {
-        return json!({"tool_error": "gen_project needs absolute dir and out"});
+    if dir.as_os_str().is_empty() || out.is_empty() {
+        return json!({"tool_error": "gen_project needs dir and out"});
     }
     if let Err(e) = write_files(&dir, req.get("files").and_then(|f| f.as_object())) {
         return json!({"tool_error": e});
